@@ -145,7 +145,8 @@ func (askSelf *AskDef[T, R]) NewByOptions(message T, ioCh chan R) *AskDef[T, R] 
 
 // AskNewGenerics New Ask instance
 func AskNewGenerics[T any, R any](message T) *AskDef[T, R] {
-	return AskNewByOptionsGenerics[T, R](message, make(chan R))
+	// Buffered: a Reply() arriving after the asker gave up (timeout) must not block the receiver
+	return AskNewByOptionsGenerics[T, R](message, make(chan R, 1))
 }
 
 // AskNewByOptionsGenerics New Ask by its options
@@ -163,7 +164,6 @@ func AskNewByOptionsGenerics[T any, R any](message T, ioCh chan R) *AskDef[T, R]
 // AskOnce Sender Ask
 func (askSelf *AskDef[T, R]) AskOnce(target ActorHandle[interface{}]) R {
 	ch := askSelf.AskChannel(target)
-	defer close(ch)
 	// var err error
 
 	return <-ch
@@ -172,7 +172,8 @@ func (askSelf *AskDef[T, R]) AskOnce(target ActorHandle[interface{}]) R {
 // AskOnceWithTimeout Sender Ask with timeout
 func (askSelf *AskDef[T, R]) AskOnceWithTimeout(target ActorHandle[interface{}], timeout time.Duration) (R, error) {
 	ch := askSelf.AskChannel(target)
-	defer close(ch)
+	// NOTE Do not close(ch) here: a Reply() after the timeout would panic (send on closed channel)
+	// inside the receiver; the late reply just stays in the buffered channel and gets collected
 	var result R
 	select {
 	case result = <-ch:
